@@ -310,12 +310,14 @@ func (x *Exec) Run(lines []string) {
 			if len(f) >= 4 && f[1] == "GENESIS" {
 				x.genLine = f
 				x.declGenesis(f)
+				x.history = append(x.history, l) // replay files must start from the same genesis
 			}
 			x.Out.Decl("%s", l)
 			continue
 		case "G":
 			x.genesisEntry(f)
 			x.Out.Decl("%s", l)
+			x.history = append(x.history, l)
 			continue
 		}
 		if x.C == nil && x.genLine != nil {
